@@ -221,6 +221,10 @@ class Topology(ABC):
         if name not in self.nodes.keys():
             raise TopologyException(f'Node {name} is not in this topology.')
         for pi in self.nodes[name].interface_list:
+            if not self.graph_model.node_exists(node_id=pi.node_id, label=ABCPropertyGraph.CLASS_ConnectionPoint):
+                # already removed as the peer of a port disconnected earlier in this loop
+                # (two services of this node peered with each other)
+                continue
             # disconnect the interface, and any of its sub-interfaces, if connected to a network service
             for i in [pi] + list(pi.interface_list):
                 peers = i.get_peers(itype=InterfaceType.ServicePort)
@@ -289,6 +293,9 @@ class Topology(ABC):
             raise TopologyException(f'{name} is not a Facility node, cannot remove.')
 
         for pi in self.facilities[name].interface_list:
+            if not self.graph_model.node_exists(node_id=pi.node_id, label=ABCPropertyGraph.CLASS_ConnectionPoint):
+                # already removed as the peer of a port disconnected earlier in this loop
+                continue
             # disconnect the interface, and any of its sub-interfaces, if connected to a network service
             for i in [pi] + list(pi.interface_list):
                 peers = i.get_peers(itype=InterfaceType.ServicePort)
